@@ -214,8 +214,8 @@ class TWorld(object):
         continue
       answered_to_caller = bool(self.term.responses.get(r['name']))
       if r['arg'] in everwritten:
-        if r['arg'] not in written and answered_to_caller:
-          r['released'] = True
+        if r['arg'] not in written:
+          r['released'] = True       # the peer has answered its tag (whether or not the client made anything of the answer)
       elif answered_to_caller and (self.sink.state == ChannelState.Open or r['gen'] != self.generation) \
            and not any(c.write_blocked for c in self.net.live_conns()):
         # (while the send buffer is full the send loop cannot reach - and drop - a queued request)
@@ -254,6 +254,13 @@ class TWorld(object):
     for r in self.reqs:
       if r['deadline'] and not r['timed_out'] and not self.term.responses.get(r['name']):
         alts.append(('deadline-fires %s' % r['name'], lambda r=r: self._timeout(r)))
+    if self.proto != 'kafka' and self.p.get('error_replies'):
+      # the peer answers a request with an error frame instead of its reply: Rerr (-128) or the legacy BAD_Rerr (127)
+      for e in frames:
+        if e.meta and e.meta.get('tag') is not None and e.meta.get('for') is not None:
+          for bad in (False, True):
+            alts.append(('peer answers %s with %s' % (e.meta.get('for'), 'BAD_Rerr' if bad else 'Rerr'),
+                         lambda e=e, bad=bad: self._error_reply(e, bad)))
     c = self.live_conn()
     if c is not None and c.peer is not None and opened and self.adversarial_used < self.p.get('max_adversarial', 2):
       wu = self.written_unanswered.get(c.id, {})
@@ -285,6 +292,13 @@ class TWorld(object):
     self.net.fire(ev, 'ok')
     if ev.kind == 'frame' and ev.meta and ev.meta.get('tag') is not None:
       self.peer_answers(ev.conn, ev.meta['tag'])
+
+  def _error_reply(self, ev, bad):
+    self.net.pending.remove(ev)
+    tag = ev.meta['tag']
+    ev.conn.rx += M.rerr(tag, b'server says no', bad=bad)
+    self.peer_answers(ev.conn, tag)
+    ev.conn.wake()
 
   def _bogus(self, c, tag):
     self.adversarial_used += 1
@@ -452,6 +466,8 @@ def scenarios(tier):
                                                               'max_adversarial': 1}))
   out.append(('3 requests, a deadline may fire between two ready callbacks',
               {'ops': [['req', 'a', True], ['req', 'b', True], ['req', 'c']], 'max_adversarial': 1, 'max_preempt': 1, '_bound': 2}))
+  out.append(('4 sequential-ish requests, the peer may answer with Rerr / BAD_Rerr',
+              {'ops': [['req', 'a'], ['req', 'b'], ['req', 'c', True], ['req', 'd']], 'max_adversarial': 0, 'error_replies': True, '_bound': 2}))
   out.append(('send buffer full while 3 requests queue up, then drains; one more request',
               {'ops': [['block'], ['req', 'x'], ['req', 'a', True], ['req', 'b'], ['unblock'], ['req', 'c']], 'max_adversarial': 1}))
   # tags beyond 16 bits: the counter jumps as if the tags in between were held by requests that were never answered
